@@ -24,6 +24,7 @@ type step struct {
 }
 
 type prog struct {
+	Lift int `json:"lift,omitempty"` // how the lifted arguments are made: 0 L1/L2, 1 zero values, 2 converted from other type parameters
 	A     string `json:"a"`
 	Steps []step `json:"steps"`
 }
@@ -121,7 +122,12 @@ func model(p prog) *mnode {
 	return root
 }
 
-func tokOf(i int) any { return fmt.Sprintf("tok-%d", i) }
+func tokOf(i int) any {
+	if liftVariant == 1 {
+		return nil // a zero-valued lifted argument carries nothing
+	}
+	return fmt.Sprintf("tok-%d", i)
+}
 
 func (n *mnode) trace(depth int, out *[]event) {
 	switch n.kind {
@@ -370,6 +376,8 @@ func runProg(p prog, fails []int, allFails bool) {
 	id := common.ID(fmt.Sprint(p))
 	rec.Begin(id, c)
 	defer rec.End(id)
+	liftVariant = p.Lift
+	defer func() { liftVariant = 0 }()
 	var want []event
 	model(p).trace(0, &want)
 	site := "C16/"
@@ -612,6 +620,7 @@ func main() {
 			p.Steps = append(p.Steps, s)
 			b = nb
 		}
+		p.Lift = []int{0, 0, 1, 2}[k%4]
 		runProg(p, nil, true)
 	}
 }
